@@ -695,3 +695,697 @@ Proof.
   - apply le_enc_zlen4.
   - apply le_enc_bytes.
 Qed.
+
+Definition set_cert (hv : hvals) (va sz : Z) : hvals :=
+  mkHv (hv_pe hv) (hv_nsec hv) (hv_optsize hv) (hv_dd4 hv) (hv_posdd hv) (hv_sectbl hv) (hv_soh hv) (hv_falign hv) (hv_page hv) va sz.
+
+Lemma scan_set_cert g hv va sz : scan_body g (set_cert hv va sz) = scan_body g hv.
+Proof. reflexivity. Qed.
+
+Lemma nt_facts_same f g hv lim va sz : all_bytes f = true -> nt_facts f hv ->
+  agree3 f g (hv_pe hv + 88) (hv_pe hv + 24 + hv_dd4 hv) lim -> hv_pe hv + 24 + hv_optsize hv <= lim -> lim <= zlen g ->
+  u32 g (hv_pe hv + 24 + hv_dd4 hv) = va -> u32 g (hv_pe hv + 24 + hv_dd4 hv + 4) = sz ->
+  nt_facts g (set_cert hv va sz).
+Proof.
+  intros Hb Hnt A Hl Hg Hva Hsz.
+  destruct (nt_basic f hv Hb Hnt) as (Hpe & Hd & Ho & Hn & Hst & Hpd & Hlen & Hsoh & Hcz & Hcs).
+  destruct Hnt as (H1 & H2 & H3 & H4 & H5 & H6 & H7 & H8 & H9 & H10 & H11 & H12 & H13 & H14 & H15 & H16 & H17 & H18 & H19 & H20).
+  cbv zeta in *. unfold nt_facts, set_cert. cbn [hv_pe hv_nsec hv_optsize hv_dd4 hv_posdd hv_sectbl hv_soh hv_falign hv_page hv_certstart hv_certsize].
+  rewrite (byte_at_same f g _ _ _ 0 A), (byte_at_same f g _ _ _ 1 A), (u32_same f g _ _ _ 60 A) by lia.
+  rewrite (byte_at_same f g _ _ _ (hv_pe hv) A), (byte_at_same f g _ _ _ (hv_pe hv + 1) A),
+          (byte_at_same f g _ _ _ (hv_pe hv + 2) A), (byte_at_same f g _ _ _ (hv_pe hv + 3) A) by lia.
+  rewrite (u16_same f g _ _ _ (hv_pe hv + 6) A), (u16_same f g _ _ _ (hv_pe hv + 20) A), (u16_same f g _ _ _ (hv_pe hv + 24) A),
+          (u16_same f g _ _ _ (hv_pe hv + 4) A) by lia.
+  rewrite (u32_same f g _ _ _ (hv_pe hv + 24 + 60) A), (u32_same f g _ _ _ (hv_pe hv + 24 + 36) A) by lia.
+  repeat (split; [first [assumption | lia]|]).
+  split.
+  { destruct H13 as [(M & D & O & N)|(M & D & O & N)]; [left|right]; (split; [assumption|split; [assumption|split; [assumption|]]]).
+    - rewrite (u32_same f g _ _ _ (hv_pe hv + 24 + 92) A) by lia; assumption.
+    - rewrite (u32_same f g _ _ _ (hv_pe hv + 24 + 108) A) by lia; assumption. }
+  repeat (split; [first [assumption | lia]|]). lia.
+Qed.
+
+Lemma nt_facts_unique f hv1 hv2 : nt_facts f hv1 -> nt_facts f hv2 -> hv1 = hv2.
+Proof. intros A B. apply read_nt_intro in A. apply read_nt_intro in B. congruence. Qed.
+
+Lemma le_dec_enc4 n : 0 <= n < 4294967296 -> le_dec (le_enc 4 n) = n.
+Proof. intros H. apply le_dec_enc. exact H. Qed.
+
+Lemma u32_of_slice g off x rest : 0 <= off -> zslice off (off + 8) g = le_enc 4 x ++ rest -> 0 <= x < 4294967296 -> u32 g off = x.
+Proof.
+  intros H0 H Hx. unfold u32. rewrite zsl_eq.
+  replace (zslice off (off + 4) g) with (zslice (off - off) (off + 4 - off) (zslice off (off + 8) g)) by (apply zslice_sub; lia).
+  rewrite H. replace (off - off) with 0 by lia. replace (off + 4 - off) with 4 by lia.
+  rewrite zslice_0. rewrite ztake_app_exact by apply le_enc_zlen4. apply le_dec_enc4, Hx.
+Qed.
+Lemma u32_of_slice2 g off x y : 0 <= off -> zslice off (off + 8) g = le_enc 4 x ++ le_enc 4 y -> 0 <= y < 4294967296 -> u32 g (off + 4) = y.
+Proof.
+  intros H0 H Hy. unfold u32. rewrite zsl_eq.
+  replace (zslice (off + 4) (off + 4 + 4) g) with (zslice (off + 4 - off) (off + 4 + 4 - off) (zslice off (off + 8) g)) by (apply zslice_sub; lia).
+  rewrite H. rewrite zslice_app2 by (rewrite le_enc_zlen4; lia). rewrite le_enc_zlen4.
+  replace (off + 4 - off - 4) with 0 by lia. replace (off + 4 + 4 - off - 4) with 4 by lia.
+  rewrite zslice_0. rewrite ztake_all by (rewrite le_enc_zlen4; lia). apply le_dec_enc4, Hy.
+Qed.
+
+(* the digest of a file of the signed shape: same preimage *)
+Lemma digest_of_shape f d c4 va sz rest : all_bytes f = true -> digest_pe f = Ok d ->
+  zlen c4 = 4 -> 0 <= va < 4294967296 -> 0 < sz < 4294967296 ->
+  va = dg_orig d + pad_of (dg_orig d) -> zlen rest = sz ->
+  exists hv, nt_facts f hv /\
+  let g := shape f (hv_pe hv + 88) (hv_pe hv + 24 + hv_dd4 hv) (dg_orig d) c4 (le_enc 4 va ++ le_enc 4 sz) (zeros (pad_of (dg_orig d)) ++ rest) in
+  nt_facts g (set_cert hv va sz) /\
+  digest_pe g = Ok (mkDg va va (hv_pe hv + 24 + hv_dd4 hv) sz (dg_pre d)).
+Proof.
+  intros Hb H Hc4 Hva Hsz Hv Hr.
+  destruct (digest_inv f d Hb H) as (hv & Hnt & D1 & D2 & D3 & D4 & D5 & D6 & D7 & D8 & D9 & last & bs & ES & EL & ET).
+  destruct (nt_basic f hv Hb Hnt) as (Hpe & Hd & Ho & Hn & Hst & Hpd & Hlen & Hsoh & Hcz & Hcs).
+  destruct (scan_inv f hv last bs Hb Hnt ES) as (S1 & S2 & S3 & S4).
+  exists hv. split; [exact Hnt|]. cbv zeta.
+  set (ck := hv_pe hv + 88) in *. set (dd := hv_pe hv + 24 + hv_dd4 hv) in *. set (orig := dg_orig d) in *.
+  destruct (pad_of_spec orig ltac:(lia)) as (P1 & P2 & P3).
+  set (d8 := le_enc 4 va ++ le_enc 4 sz). set (tail := zeros (pad_of orig) ++ rest).
+  set (g := shape f ck dd orig c4 d8 tail).
+  assert (L8 : zlen d8 = 8) by (unfold d8; rewrite zlen_app, !le_enc_zlen4; lia).
+  assert (A : agree3 f g ck dd orig) by (apply shape_agree; lia).
+  assert (Lt : zlen tail = pad_of orig + sz) by (unfold tail; rewrite zlen_app, zlen_zeros; lia).
+  assert (Lg : zlen g = orig + zlen tail) by (apply shape_len; lia).
+  assert (Gdd : zslice dd (dd + 8) g = d8) by (apply shape_dd; lia).
+  assert (N : nt_facts g (set_cert hv va sz)).
+  { apply (nt_facts_same f g hv orig); try assumption; try lia.
+    - eapply u32_of_slice; [lia|exact Gdd|lia].
+    - eapply u32_of_slice2; [lia|exact Gdd|lia]. }
+  split; [exact N|].
+  rewrite digest_unfold. rewrite (read_nt_intro _ _ N). cbn [bind]. rewrite scan_set_cert.
+  assert (A' : agree3 f g ck dd last) by (intros a b Ha Hab Hr'; apply A; lia).
+  rewrite (scan_same f g hv last bs Hb Hnt ES ltac:(lia) A'). cbn [bind fst snd].
+  unfold set_cert. cbn [hv_certstart hv_certsize hv_posdd].
+  unfold read_trailer. autounfold with pegen.
+  replace (sz =? 0) with false by (symmetry; apply Z.eqb_neq; lia).
+  replace (va <? last) with false by (symmetry; apply Z.ltb_ge; lia).
+  replace (zlen g <? last + (va - last)) with false by (symmetry; apply Z.ltb_ge; lia).
+  replace (zlen g <? va + sz) with false by (symmetry; apply Z.ltb_ge; lia).
+  replace (zlen g - (va + sz) >? 0) with false by (symmetry; rewrite Z.gtb_ltb; apply Z.ltb_ge; lia).
+  cbn [bind fst snd].
+  assert (Pv : pad_of va = 0).
+  { destruct (pad_of_spec va ltac:(lia)) as (_ & _ & ->). rewrite Hv, P2. reflexivity. }
+  rewrite Pv. replace (va + 0) with va by lia. f_equal. f_equal; [lia|].
+  rewrite D9. change (zeros 0) with (@nil Z). rewrite app_nil_r.
+  rewrite S4. unfold lin. rewrite <- !app_assoc. do 2 f_equal.
+  rewrite <- (adj last orig orig va g) by lia.
+  rewrite (A last orig) by lia.
+  rewrite (shape_tail f c4 d8 tail ck dd orig) by lia.
+  replace (orig - orig) with 0 by lia. rewrite zslice_0. unfold tail.
+  rewrite ztake_app_exact by (rewrite zlen_zeros; lia).
+  rewrite app_assoc. f_equal. apply adj; lia.
+Qed.
+
+(* ------------------------------------------------------------------ MakePatch's certificate table and directory entry *)
+Lemma padded_spec n : 0 <= n -> n <= pe_mp_padded n < n + 8 /\ pe_mp_padded n mod 8 = 0.
+Proof.
+  intros H. unfold pe_mp_padded. rewrite Z.quot_div_nonneg by lia. split; [lia|]. apply Z_mod_mult.
+Qed.
+
+(* one WIN_CERTIFICATE entry as MakePatch writes it *)
+Definition entry (sig : bytes) : bytes :=
+  le_enc 4 (8 + pe_mp_padded (zlen sig)) ++ le_enc 2 512 ++ le_enc 2 2 ++ pad8 sig.
+
+Lemma zlen_pad8 sig : zlen (pad8 sig) = pe_mp_padded (zlen sig).
+Proof.
+  pose proof (padded_spec (zlen sig) (zlen_nonneg sig)). unfold pad8. rewrite zlen_app, zlen_zeros by lia. lia.
+Qed.
+Lemma zlen_entry sig : zlen (entry sig) = 8 + pe_mp_padded (zlen sig).
+Proof.
+  unfold entry. rewrite !zlen_app, zlen_pad8, !le_enc_zlen. lia.
+Qed.
+
+Lemma cert_table_eq d sig : 0 <= dg_certstart d - dg_orig d -> zlen sig < 4294967296 - 16 ->
+  cert_table d sig = zeros (dg_certstart d - dg_orig d) ++ entry sig.
+Proof.
+  intros Hp Hs. pose proof (padded_spec (zlen sig) (zlen_nonneg sig)) as [P1 P2]. pose proof (zlen_nonneg sig).
+  unfold cert_table, entry, pad8. autounfold with pegen.
+  change (Z.to_nat 4) with 4%nat. change (Z.to_nat 2) with 2%nat.
+  rewrite Z.mod_small by (unfold pe_mp_padded in *; lia).
+  f_equal. destruct (dg_certstart d - dg_orig d =? 0) eqn:E; cbn [negb]; zb; [rewrite E|]; reflexivity.
+Qed.
+Lemma dd_entry_eq d sig : 0 <= dg_certstart d - dg_orig d < 8 -> 0 <= dg_certstart d < 4294967296 -> zlen sig < 4294967296 - 24 ->
+  dd_entry d sig = le_enc 4 (dg_certstart d) ++ le_enc 4 (8 + pe_mp_padded (zlen sig)).
+Proof.
+  intros Hp Hc Hs. pose proof (padded_spec (zlen sig) (zlen_nonneg sig)) as [P1 P2]. pose proof (zlen_nonneg sig).
+  unfold dd_entry. rewrite cert_table_eq by lia. rewrite zlen_app, zlen_zeros, zlen_entry by lia.
+  unfold pe_mp_dd_va, pe_mp_dd_size, pe_mp_pad2, wrap32.
+  rewrite (Z.mod_small (dg_certstart d)) by lia.
+  rewrite (Z.mod_small (dg_certstart d - dg_orig d + (8 + pe_mp_padded (zlen sig)))) by lia.
+  rewrite (Z.mod_small (dg_certstart d - dg_orig d)) by lia.
+  f_equal. f_equal. rewrite Z.mod_small by lia. lia.
+Qed.
+
+Lemma walk_entry sig k : zlen sig < 4294967296 - 16 -> walk_table (S k) (entry sig) = ([pad8 sig], 0).
+Proof.
+  intros Hs. pose proof (padded_spec (zlen sig) (zlen_nonneg sig)) as [P1 P2]. pose proof (zlen_nonneg sig).
+  set (P := pe_mp_padded (zlen sig)) in *.
+  assert (LE : zlen (entry sig) = 8 + P) by apply zlen_entry.
+  cbn [walk_table]. autounfold with pegen. rewrite LE.
+  replace (8 + P =? 0) with false by (symmetry; apply Z.eqb_neq; lia). cbn [negb].
+  replace (8 + P <? 4) with false by (symmetry; apply Z.ltb_ge; lia).
+  assert (W : le_dec (ztake 4 (entry sig)) = 8 + P).
+  { unfold entry. fold P. rewrite ztake_app_exact by apply le_enc_zlen4. apply le_dec_enc4. lia. }
+  rewrite W.
+  assert (Q : Z.quot (8 + P + 7) 8 * 8 = 8 + P) by (rewrite Z.quot_div_nonneg by lia; lia).
+  rewrite Q.
+  replace ((8 + P >? 8 + P) || (8 + P - 8 <? 0)) with false
+    by (symmetry; apply orb_false_iff; split; [rewrite Z.gtb_ltb; apply Z.ltb_ge; lia|apply Z.ltb_ge; lia]).
+  rewrite zdrop_all by lia.
+  assert (R : walk_table k [] = ([], 0)) by (destruct k; reflexivity).
+  rewrite R. cbn [fst snd]. f_equal. f_equal.
+  unfold entry. fold P. rewrite zslice_app2 by (rewrite le_enc_zlen4; lia). rewrite zslice_app2 by (rewrite !le_enc_zlen; lia).
+  rewrite zslice_app2 by (rewrite !le_enc_zlen; lia). rewrite !le_enc_zlen. cbn [Z.of_nat Pos.of_succ_nat Pos.succ].
+  replace (8 - 4 - 2 - 2) with 0 by lia. replace (8 + (8 + P - 8) - 4 - 2 - 2) with P by lia.
+  rewrite zslice_0. apply ztake_all. rewrite zlen_pad8. fold P. lia.
+Qed.
+
+Definition sig_ok (sig : bytes) : Prop := zlen sig < 4294967296 - 24.
+
+(* everything known about a successful embedding *)
+Record embedded (f sig g : bytes) (d : dg) (hv : hvals) : Prop := mkEmb {
+  em_digest : digest_pe f = Ok d;
+  em_nt : nt_facts f hv;
+  em_small : 0 <= dg_certstart d < 4294967296;
+  em_shape : exists c4, zlen c4 = 4 /\ all_bytes c4 = true /\
+     g = shape f (hv_pe hv + 88) (hv_pe hv + 24 + hv_dd4 hv) (dg_orig d) c4
+           (le_enc 4 (dg_certstart d) ++ le_enc 4 (8 + pe_mp_padded (zlen sig)))
+           (zeros (pad_of (dg_orig d)) ++ entry sig);
+  em_nt_g : nt_facts g (set_cert hv (dg_certstart d) (8 + pe_mp_padded (zlen sig)));
+  em_digest_g : digest_pe g = Ok (mkDg (dg_certstart d) (dg_certstart d) (hv_pe hv + 24 + hv_dd4 hv) (8 + pe_mp_padded (zlen sig)) (dg_pre d))
+}.
+
+Lemma embed_inv f sig g : all_bytes f = true -> sig_ok sig -> embed f sig = Ok g -> exists d hv, embedded f sig g d hv.
+Proof.
+  intros Hb Hs H. unfold sig_ok in Hs.
+  destruct (digest_pe f) as [d| |] eqn:ED; try (unfold embed in H; rewrite ED in H; discriminate).
+  destruct (digest_inv f d Hb ED) as (hv & Hnt & D1 & D2 & D3 & D4 & D5 & D6 & D7 & D8 & D9 & _).
+  destruct (nt_basic f hv Hb Hnt) as (Hpe & Hd & Ho & Hn & Hst & Hpd & Hlen & Hsoh & Hcz & Hcs).
+  destruct (pad_of_spec (dg_orig d) ltac:(lia)) as (P1 & P2 & P3).
+  pose proof (padded_spec (zlen sig) (zlen_nonneg sig)) as [Q1 Q2]. pose proof (zlen_nonneg sig).
+  assert (Hc : dg_certstart d < 4294967296).
+  { destruct (Z_lt_ge_dec (dg_certstart d) 4294967296) as [L|L]; [exact L|].
+    unfold embed in H. rewrite ED in H. cbn [bind] in H. unfold make_patch in H.
+    replace (pe_mp_too_big (dg_certstart d)) with true in H
+      by (symmetry; unfold pe_mp_too_big; change (Z.shiftl 1 32) with 4294967296; rewrite Z.geb_leb; apply Z.leb_le; lia).
+    discriminate. }
+  destruct (embed_shape f d sig Hb ED Hc) as (hv' & c4 & Hnt' & L4 & B4 & EQ).
+  assert (hv' = hv) by (eapply nt_facts_unique; eauto). subst hv'.
+  rewrite H in EQ. injection EQ as G.
+  rewrite dd_entry_eq, cert_table_eq in G by lia.
+  replace (dg_certstart d - dg_orig d) with (pad_of (dg_orig d)) in G by lia.
+  destruct (digest_of_shape f d c4 (dg_certstart d) (8 + pe_mp_padded (zlen sig)) (entry sig) Hb ED L4) as (hv' & Hnt'' & N & DG);
+    try lia; try apply zlen_entry.
+  assert (hv' = hv) by (eapply nt_facts_unique; eauto). subst hv'. cbv zeta in N, DG. rewrite <- G in N, DG.
+  exists d, hv. constructor; try assumption; try lia.
+  exists c4. repeat split; assumption.
+Qed.
+
+(* L2: the digest input ignores the signature that was just embedded *)
+Lemma law_hashin_pe f sig g : all_bytes f = true -> sig_ok sig -> embed f sig = Ok g -> hashin g = hashin f.
+Proof.
+  intros Hb Hs H. destruct (embed_inv f sig g Hb Hs H) as (d & hv & [ED _ _ _ _ EG]).
+  unfold hashin. rewrite ED, EG. reflexivity.
+Qed.
+
+(* L1: the verifier finds the embedded blob (zero padded to the 8-byte boundary MakePatch pads to) *)
+Lemma find_table_embedded f sig g : all_bytes f = true -> sig_ok sig -> embed f sig = Ok g -> find_table g = Ok (Some (entry sig)).
+Proof.
+  intros Hb Hs H. destruct (embed_inv f sig g Hb Hs H) as (d & hv & [ED Hnt Hsm (c4 & L4 & B4 & G) N EG]).
+  unfold sig_ok in Hs.
+  destruct (digest_inv f d Hb ED) as (hv' & Hnt' & D1 & D2 & D3 & D4 & D5 & D6 & D7 & D8 & D9 & _).
+  assert (hv' = hv) by (eapply nt_facts_unique; eauto). subst hv'.
+  destruct (nt_basic f hv Hb Hnt) as (Hpe & Hd & Ho & Hn & Hst & Hpd & Hlen & Hsoh & Hcz & Hcs).
+  destruct (pad_of_spec (dg_orig d) ltac:(lia)) as (P1 & P2 & P3).
+  pose proof (padded_spec (zlen sig) (zlen_nonneg sig)) as [Q1 Q2]. pose proof (zlen_nonneg sig).
+  unfold find_table. rewrite (read_nt_intro _ _ N). cbn [bind]. unfold set_cert. cbn [hv_certstart hv_certsize].
+  unfold pe_vf_not_signed.
+  replace (8 + pe_mp_padded (zlen sig) =? 0) with false by (symmetry; apply Z.eqb_neq; lia).
+  assert (Lg : zlen g = dg_orig d + (pad_of (dg_orig d) + (8 + pe_mp_padded (zlen sig)))).
+  { rewrite G. rewrite shape_len; try lia; [|rewrite zlen_app, !le_enc_zlen4; lia]. rewrite zlen_app, zlen_zeros, zlen_entry by lia. lia. }
+  replace (zlen g <? dg_certstart d + (8 + pe_mp_padded (zlen sig))) with false by (symmetry; apply Z.ltb_ge; lia).
+  do 2 f_equal. rewrite G.
+  rewrite shape_tail; try lia; [|rewrite zlen_app, !le_enc_zlen4; lia].
+  rewrite zslice_app2 by (rewrite zlen_zeros; lia). rewrite zlen_zeros by lia.
+  replace (dg_certstart d - dg_orig d - pad_of (dg_orig d)) with 0 by lia.
+  rewrite zslice_0. apply ztake_all. rewrite zlen_entry. lia.
+Qed.
+
+Lemma law_extract_pe f sig g : all_bytes f = true -> sig_ok sig -> embed f sig = Ok g ->
+  extract_all g = Ok (Some [pad8 sig]) /\ extract g = Ok (Some (pad8 sig)).
+Proof.
+  intros Hb Hs H. assert (E : extract_all g = Ok (Some [pad8 sig])).
+  { unfold extract_all. rewrite (find_table_embedded f sig g Hb Hs H). cbn [bind].
+    rewrite walk_entry by (unfold sig_ok in Hs; lia). reflexivity. }
+  split; [exact E|]. unfold extract. rewrite E. reflexivity.
+Qed.
+
+(* ------------------------------------------------------------------ MakePatch pads: a blob and its padded form embed identically *)
+Lemma padded_idem n : 0 <= n -> pe_mp_padded (pe_mp_padded n) = pe_mp_padded n.
+Proof.
+  intros H. pose proof (padded_spec n H) as [P1 P2]. unfold pe_mp_padded in *.
+  rewrite !Z.quot_div_nonneg in * by lia. lia.
+Qed.
+Lemma embed_pad8 f sig : embed f (pad8 sig) = embed f sig.
+Proof.
+  pose proof (padded_spec (zlen sig) (zlen_nonneg sig)) as [P1 P2]. pose proof (zlen_nonneg sig).
+  assert (C : forall d, cert_table d (pad8 sig) = cert_table d sig).
+  { intros d. unfold cert_table. rewrite zlen_pad8, padded_idem by lia. do 4 f_equal.
+    unfold pe_mp_sig_pad. replace (pe_mp_padded (zlen sig) - pe_mp_padded (zlen sig)) with 0 by lia.
+    change (zeros 0) with (@nil Z). rewrite app_nil_r. reflexivity. }
+  unfold embed. destruct (digest_pe f) as [d| |]; cbn [bind]; try reflexivity.
+  unfold make_patch, dd_entry. rewrite C. reflexivity.
+Qed.
+
+(* ------------------------------------------------------------------ the specification's readers agree with relic's header walk *)
+Lemma sp_link f hv : nt_facts f hv ->
+  sp_lfanew f = hv_pe hv /\ sp_cksum f = hv_pe hv + 88 /\ sp_dd4 f = hv_pe hv + 24 + hv_dd4 hv /\
+  sp_cert_va f = hv_certstart hv /\ sp_cert_size f = hv_certsize hv /\ sp_soh f = hv_soh hv /\
+  sp_sectbl f = hv_sectbl hv /\ sp_nsec f = hv_nsec hv.
+Proof.
+  intros (H1 & H2 & H3 & H4 & H5 & H6 & H7 & H8 & H9 & H10 & H11 & H12 & H13 & H14 & H15 & H16 & H17 & H18 & H19 & H20).
+  cbv zeta in *.
+  assert (L : sp_lfanew f = hv_pe hv) by (unfold sp_lfanew; lia).
+  assert (D : sp_dd4 f = hv_pe hv + 24 + hv_dd4 hv).
+  { unfold sp_dd4, sp_ddir, sp_plus, sp_magic, sp_opt. rewrite L.
+    replace (hv_pe hv + 4 + 20) with (hv_pe hv + 24) by lia.
+    destruct H13 as [(M & D & O & N)|(M & D & O & N)]; rewrite M, D; cbn [Z.eqb Pos.eqb]; lia. }
+  unfold sp_cert_va, sp_cert_size. rewrite D.
+  unfold sp_cksum, sp_soh, sp_sectbl, sp_nsec, sp_optsize, sp_opt. rewrite L.
+  replace (hv_pe hv + 4 + 20) with (hv_pe hv + 24) by lia. replace (hv_pe hv + 4 + 2) with (hv_pe hv + 6) by lia.
+  replace (hv_pe hv + 4 + 16) with (hv_pe hv + 20) by lia.
+  repeat split; lia.
+Qed.
+
+(* the protected bytes, as three stretches of the file with zeroed fields between them *)
+Definition pmask (f : bytes) (ck dd lim : Z) : bytes :=
+  zslice 0 ck f ++ zeros 4 ++ zslice (ck + 4) dd f ++ zeros 8 ++ zslice (dd + 8) lim f.
+
+Lemma mask_fields_eq f ck dd lim : 0 <= ck -> ck + 4 <= dd -> dd + 8 <= lim ->
+  mask_fields (ztake lim f) ck dd = pmask f ck dd lim.
+Proof.
+  intros H1 H2 H3. unfold mask_fields, pmask. rewrite ztk_eq, zsl_eq, zdp_eq.
+  rewrite ztake_ztake by lia. rewrite zslice_ztake by lia. rewrite <- zslice_0.
+  do 4 f_equal. unfold zslice. apply zdrop_ztake. lia.
+Qed.
+
+Lemma digest_payload_end f d hv : all_bytes f = true -> digest_pe f = Ok d -> nt_facts f hv -> sp_payload_end f = dg_orig d.
+Proof.
+  intros Hb H Hnt. destruct (digest_inv f d Hb H) as (hv' & Hnt' & D1 & D2 & D3 & D4 & D5 & D6 & D7 & _).
+  assert (hv' = hv) by (eapply nt_facts_unique; eauto). subst hv'.
+  destruct (sp_link f hv Hnt) as (_ & _ & _ & Sva & Ssz & _).
+  unfold sp_payload_end. rewrite Sva, Ssz. destruct (hv_certsize hv =? 0) eqn:E; zb; [symmetry; auto|symmetry; auto].
+Qed.
+
+Lemma protected_eq f d hv : all_bytes f = true -> digest_pe f = Ok d -> nt_facts f hv ->
+  protected f = pmask f (hv_pe hv + 88) (hv_pe hv + 24 + hv_dd4 hv) (dg_orig d).
+Proof.
+  intros Hb H Hnt. destruct (digest_inv f d Hb H) as (hv' & Hnt' & D1 & _).
+  assert (hv' = hv) by (eapply nt_facts_unique; eauto). subst hv'.
+  destruct (nt_basic f hv Hb Hnt) as (Hpe & Hd & _).
+  destruct (sp_link f hv Hnt) as (_ & Sck & Sdd & _).
+  unfold protected. rewrite (digest_payload_end f d hv Hb H Hnt), Sck, Sdd, ztk_eq. apply mask_fields_eq; lia.
+Qed.
+
+Lemma zlen_pmask f ck dd lim : 0 <= ck -> ck + 4 <= dd -> dd + 8 <= lim -> lim <= zlen f -> zlen (pmask f ck dd lim) = lim.
+Proof.
+  intros. unfold pmask. rewrite !zlen_app, !zlen_zslice, !zlen_zeros by lia. lia.
+Qed.
+
+(* what a successful embedding does to the file, byte for byte *)
+Lemma embedded_bytes f sig g d hv : all_bytes f = true -> sig_ok sig -> embedded f sig g d hv ->
+  let ck := hv_pe hv + 88 in let dd := hv_pe hv + 24 + hv_dd4 hv in let orig := dg_orig d in
+  0 <= ck /\ ck + 4 <= dd /\ dd + 8 <= orig /\ orig <= zlen f /\ 0 <= pad_of orig < 8 /\ dg_certstart d = orig + pad_of orig /\
+  (orig + pad_of orig) mod 8 = 0 /\
+  agree3 f g ck dd orig /\ zdrop orig g = zeros (pad_of orig) ++ entry sig /\
+  zlen g = orig + pad_of orig + 8 + pe_mp_padded (zlen sig) /\ zlen (zslice ck (ck + 4) g) = 4 /\ zlen (zslice dd (dd + 8) g) = 8.
+Proof.
+  intros Hb Hs [ED Hnt Hsm (c4 & L4 & B4 & G) N EG]. cbv zeta.
+  destruct (digest_inv f d Hb ED) as (hv' & Hnt' & D1 & D2 & D3 & D4 & D5 & D6 & D7 & D8 & D9 & _).
+  assert (hv' = hv) by (eapply nt_facts_unique; eauto). subst hv'.
+  destruct (nt_basic f hv Hb Hnt) as (Hpe & Hd & Ho & Hn & Hst & Hpd & Hlen & Hsoh & Hcz & Hcs).
+  destruct (pad_of_spec (dg_orig d) ltac:(lia)) as (P1 & P2 & P3).
+  pose proof (padded_spec (zlen sig) (zlen_nonneg sig)) as [Q1 Q2]. pose proof (zlen_nonneg sig).
+  assert (L8 : zlen (le_enc 4 (dg_certstart d) ++ le_enc 4 (8 + pe_mp_padded (zlen sig))) = 8) by (rewrite zlen_app, !le_enc_zlen4; lia).
+  repeat (split; [lia|]).
+  split; [rewrite G; apply shape_agree; lia|].
+  split.
+  { rewrite <- (zslice_to_end (dg_orig d) g). rewrite G at 2. rewrite shape_tail by lia.
+    replace (dg_orig d - dg_orig d) with 0 by lia. rewrite zslice_0. apply ztake_all.
+    rewrite G, shape_len by lia. lia. }
+  split.
+  { rewrite G, shape_len by lia. rewrite zlen_app, zlen_zeros, zlen_entry by lia. lia. }
+  split.
+  - rewrite G, shape_ck by lia. exact L4.
+  - rewrite G, shape_dd by lia. exact L8.
+Qed.
+
+(* L3: the independent reader's view is unchanged *)
+Lemma law_payload_pe f sig g : all_bytes f = true -> sig_ok sig -> embed f sig = Ok g -> payload_view g = payload_view f.
+Proof.
+  intros Hb Hs H. destruct (embed_inv f sig g Hb Hs H) as (d & hv & EM).
+  destruct (embedded_bytes f sig g d hv Hb Hs EM) as (B1 & B2 & B3 & B4 & B5 & B6 & B7 & A & T & Lg & _).
+  destruct EM as [ED Hnt Hsm _ N EG].
+  set (ck := hv_pe hv + 88) in *. set (dd := hv_pe hv + 24 + hv_dd4 hv) in *. set (orig := dg_orig d) in *.
+  pose proof (padded_spec (zlen sig) (zlen_nonneg sig)) as [Q1 Q2]. pose proof (zlen_nonneg sig).
+  unfold payload_view. rewrite (protected_eq f d hv Hb ED Hnt). fold ck dd orig.
+  (* the signed file *)
+  destruct (sp_link g _ N) as (_ & Sck & Sdd & Sva & Ssz & _).
+  unfold set_cert in Sck, Sdd, Sva, Ssz. cbn [hv_pe hv_dd4 hv_certstart hv_certsize] in Sck, Sdd, Sva, Ssz. fold ck dd in Sck, Sdd.
+  assert (PE : sp_payload_end g = dg_certstart d).
+  { unfold sp_payload_end. rewrite Ssz, Sva. replace (8 + pe_mp_padded (zlen sig) =? 0) with false by (symmetry; apply Z.eqb_neq; lia). reflexivity. }
+  unfold protected. rewrite PE, Sck, Sdd, ztk_eq, mask_fields_eq by lia.
+  assert (PM : pmask g ck dd (dg_certstart d) = pmask f ck dd orig ++ zeros (pad_of orig)).
+  { unfold pmask. rewrite (A 0 ck), (A (ck + 4) dd) by lia. rewrite <- !app_assoc. do 4 f_equal.
+    rewrite <- (adj (dd + 8) orig orig (dg_certstart d) g) by lia. rewrite (A (dd + 8) orig) by lia. f_equal.
+    rewrite <- (zslice_sub orig (zlen g) orig (dg_certstart d) g) by lia. rewrite zslice_to_end, T.
+    replace (orig - orig) with 0 by lia. rewrite zslice_0. apply ztake_app_exact. rewrite zlen_zeros; lia. }
+  rewrite PM. unfold pad_to8. rewrite zlen_app, zlen_zeros, zlen_pmask by lia.
+  replace ((8 - (orig + pad_of orig) mod 8) mod 8) with 0 by (rewrite B7; reflexivity).
+  change (zeros 0) with (@nil Z). rewrite app_nil_r. f_equal.
+  destruct (pad_of_spec orig ltac:(lia)) as (_ & _ & ->). reflexivity.
+Qed.
+
+Lemma app_eq_len {A} (a1 b1 a2 b2 : list A) : a1 ++ b1 = a2 ++ b2 -> zlen a1 = zlen a2 -> a1 = a2 /\ b1 = b2.
+Proof.
+  intros E L. split.
+  - rewrite <- (ztake_app_exact (zlen a1) a1 b1 eq_refl), E. apply ztake_app_exact. lia.
+  - rewrite <- (zdrop_app_exact (zlen a1) a1 b1 eq_refl), E. apply zdrop_app_exact. lia.
+Qed.
+
+(* what the digest input of an accepted file looks like *)
+Lemma hashin_inv f pre : all_bytes f = true -> hashin f = Ok pre ->
+  exists d hv, digest_pe f = Ok d /\ nt_facts f hv /\
+    let ck := hv_pe hv + 88 in let dd := hv_pe hv + 24 + hv_dd4 hv in let orig := dg_orig d in
+    64 <= hv_pe hv /\ (hv_dd4 hv = 128 \/ hv_dd4 hv = 144) /\ dd + 8 <= orig /\ orig <= zlen f /\
+    pre = lin f ck dd orig ++ zeros (pad_of orig) /\ sp_payload_end f = orig /\
+    protected f = pmask f ck dd orig.
+Proof.
+  intros Hb H. unfold hashin in H. destruct (digest_pe f) as [d| |] eqn:ED; cbn [bind] in H; try discriminate.
+  inversion H; subst pre; clear H.
+  destruct (digest_inv f d Hb ED) as (hv & Hnt & D1 & D2 & D3 & D4 & D5 & D6 & D7 & D8 & D9 & _).
+  destruct (nt_basic f hv Hb Hnt) as (Hpe & Hd & _).
+  exists d, hv. split; [reflexivity|]. split; [exact Hnt|]. cbv zeta.
+  split; [lia|]. split; [assumption|]. split; [lia|]. split; [lia|]. split; [exact D9|].
+  split; [exact (digest_payload_end f d hv Hb ED Hnt)|exact (protected_eq f d hv Hb ED Hnt)].
+Qed.
+
+Lemma lin_prefix f ck dd orig z a b : 0 <= a -> a <= b -> b <= ck -> ck <= zlen f ->
+  zslice a b (lin f ck dd orig ++ z) = zslice a b f.
+Proof.
+  intros H1 H2 H3 H4. unfold lin. rewrite <- !app_assoc. rewrite zslice_app1 by (rewrite ?zlen_zslice; lia).
+  replace a with (a - 0) at 1 by lia. replace b with (b - 0) at 1 by lia. apply zslice_sub; lia.
+Qed.
+
+(* L4: equal digest inputs force equal protected bytes (up to the zero padding in front of the certificate table) *)
+Lemma protect_pe g1 g2 pre : all_bytes g1 = true -> all_bytes g2 = true -> hashin g1 = Ok pre -> hashin g2 = Ok pre ->
+  pad_to8 (protected g1) = pad_to8 (protected g2).
+Proof.
+  intros Hb1 Hb2 H1 H2.
+  destruct (hashin_inv g1 pre Hb1 H1) as (d1 & hv1 & ED1 & N1 & Hp1 & Hd1 & Ho1 & Hl1 & P1 & _ & R1).
+  destruct (hashin_inv g2 pre Hb2 H2) as (d2 & hv2 & ED2 & N2 & Hp2 & Hd2 & Ho2 & Hl2 & P2 & _ & R2).
+  cbv zeta in *.
+  (* same e_lfanew *)
+  assert (Epe : hv_pe hv1 = hv_pe hv2).
+  { destruct N1 as (_ & _ & _ & E1 & _). destruct N2 as (_ & _ & _ & E2 & _). rewrite E1, E2. unfold u32. rewrite !zsl_eq.
+    rewrite <- (lin_prefix g1 (hv_pe hv1 + 88) (hv_pe hv1 + 24 + hv_dd4 hv1) (dg_orig d1) (zeros (pad_of (dg_orig d1))) 60 (60 + 4)) by lia.
+    rewrite <- (lin_prefix g2 (hv_pe hv2 + 88) (hv_pe hv2 + 24 + hv_dd4 hv2) (dg_orig d2) (zeros (pad_of (dg_orig d2))) 60 (60 + 4)) by lia.
+    rewrite <- P1, <- P2. reflexivity. }
+  (* same optional header magic, hence same directory offset *)
+  assert (Edd : hv_dd4 hv1 = hv_dd4 hv2).
+  { assert (M : u16 g1 (hv_pe hv1 + 24) = u16 g2 (hv_pe hv2 + 24)).
+    { unfold u16. rewrite !zsl_eq.
+      rewrite <- (lin_prefix g1 (hv_pe hv1 + 88) (hv_pe hv1 + 24 + hv_dd4 hv1) (dg_orig d1) (zeros (pad_of (dg_orig d1))) (hv_pe hv1 + 24) (hv_pe hv1 + 24 + 2)) by lia.
+      rewrite <- (lin_prefix g2 (hv_pe hv2 + 88) (hv_pe hv2 + 24 + hv_dd4 hv2) (dg_orig d2) (zeros (pad_of (dg_orig d2))) (hv_pe hv2 + 24) (hv_pe hv2 + 24 + 2)) by lia.
+      rewrite <- P1, <- P2, Epe. reflexivity. }
+    destruct N1 as (_ & _ & _ & _ & _ & _ & _ & _ & _ & _ & _ & _ & M1 & _).
+    destruct N2 as (_ & _ & _ & _ & _ & _ & _ & _ & _ & _ & _ & _ & M2 & _). cbv zeta in M1, M2.
+    destruct M1 as [(A1 & B1 & _)|(A1 & B1 & _)], M2 as [(A2 & B2 & _)|(A2 & B2 & _)]; lia. }
+  set (ck := hv_pe hv1 + 88) in *. set (dd := hv_pe hv1 + 24 + hv_dd4 hv1) in *.
+  replace (hv_pe hv2 + 88) with ck in * by (unfold ck; lia).
+  replace (hv_pe hv2 + 24 + hv_dd4 hv2) with dd in * by (unfold dd; lia).
+  destruct (pad_of_spec (dg_orig d1) ltac:(lia)) as (Q1 & Q1' & Q1'').
+  destruct (pad_of_spec (dg_orig d2) ltac:(lia)) as (Q2 & Q2' & Q2'').
+  rewrite P1 in P2. unfold lin in P2. rewrite <- !app_assoc in P2.
+  apply app_eq_len in P2; [|rewrite !zlen_zslice; lia]. destruct P2 as [EA P2].
+  apply app_eq_len in P2; [|rewrite !zlen_zslice; lia]. destruct P2 as [EB EC].
+  rewrite R1, R2. unfold pad_to8. rewrite !zlen_pmask by lia. rewrite <- Q1'', <- Q2''.
+  unfold pmask. rewrite <- !app_assoc. rewrite EA, EB. do 4 f_equal. exact EC.
+Qed.
+
+(* ------------------------------------------------------------------ C05: the Authenticode algorithm on its own domain *)
+Lemma sp_insert_forall (P : Z * Z -> Prop) s l : P s -> Forall P l -> Forall P (sp_insert s l).
+Proof.
+  intros Hs Hl. induction Hl as [|t r Ht Hr IH]; cbn [sp_insert]; [repeat constructor; exact Hs|].
+  destruct (fst t <? fst s); constructor; auto.
+Qed.
+Lemma sp_sorted_forall (P : Z * Z -> Prop) f : Forall P (sp_secs f) -> Forall P (sp_sorted f).
+Proof.
+  unfold sp_sorted. generalize (sp_secs f). intros l H.
+  induction H as [|s r Hs Hr IH]; cbn [filter fold_right]; [constructor|].
+  destruct (negb (snd s =? 0)); cbn [fold_right]; [apply sp_insert_forall; assumption|exact IH].
+Qed.
+Lemma sp_secs_nonneg f : all_bytes f = true -> Forall (fun s => 0 <= snd s) (sp_secs f).
+Proof.
+  intros Hb. unfold sp_secs. apply Forall_forall. intros s Hs. apply in_map_iff in Hs. destruct Hs as (i & <- & _).
+  unfold sp_sec. cbn [snd]. pose proof (u32_range f (sp_sectbl f + 40 * Z.of_nat i + 16) Hb). lia.
+Qed.
+
+Definition sum_from (l : list (Z * Z)) (pos : Z) : Z := fold_left (fun a s => a + snd s) l pos.
+Lemma sum_from_ge l : forall pos, Forall (fun s => 0 <= snd s) l -> pos <= sum_from l pos.
+Proof.
+  induction l as [|s r IH]; intros pos H; [cbn; lia|].
+  inversion H; subst. unfold sum_from in *. cbn [fold_left]. specialize (IH (pos + snd s) H3). lia.
+Qed.
+Lemma tiles_concat f l : forall pos, sp_tiles l pos = true -> Forall (fun s => 0 <= snd s) l -> 0 <= pos ->
+  concat (map (fun s => zsl (fst s) (fst s + snd s) f) l) = zslice pos (sum_from l pos) f.
+Proof.
+  induction l as [|s r IH]; intros pos Ht Hn Hp.
+  - cbn. rewrite zslice_nil_ge by lia. reflexivity.
+  - inversion Hn; subst. cbn [sp_tiles] in Ht. apply andb_true_iff in Ht. destruct Ht as [E Ht]. zb.
+    cbn [map concat]. rewrite zsl_eq, E. rewrite (IH (pos + snd s) Ht H2 ltac:(lia)).
+    unfold sum_from. cbn [fold_left]. apply adj; [reflexivity|lia|]. apply (sum_from_ge r (pos + snd s) H2).
+Qed.
+
+Lemma hashin_eq_spec_pe f pre : all_bytes f = true -> hashin f = Ok pre -> spec_contig f = true ->
+  pre = spec_hashin f ++ zeros ((8 - sp_payload_end f mod 8) mod 8).
+Proof.
+  intros Hb H Hc.
+  destruct (hashin_inv f pre Hb H) as (d & hv & ED & Hnt & Hpe & Hd & Ho & Hl & P & PE & _). cbv zeta in *.
+  destruct (digest_inv f d Hb ED) as (hv' & Hnt' & D1 & D2 & D3 & D4 & D5 & D6 & D7 & D8 & D9 & last & bs & ES & EL & ET).
+  assert (hv' = hv) by (eapply nt_facts_unique; eauto). subst hv'.
+  destruct (nt_basic f hv Hb Hnt) as (_ & _ & Hos & Hn & Hst & Hpd & Hlen & Hsoh & Hcz & Hcs).
+  destruct (sp_link f hv Hnt) as (Slf & Sck & Sdd & Sva & Ssz & Ssoh & Stbl & Snsec).
+  destruct (pad_of_spec (dg_orig d) ltac:(lia)) as (Q1 & Q2 & Q3).
+  rewrite PE, <- Q3, P. f_equal.
+  unfold spec_contig in Hc. apply andb_true_iff in Hc. destruct Hc as [Hc C3]. apply andb_true_iff in Hc. destruct Hc as [C1 C2]. zb.
+  pose proof (sp_sorted_forall _ f (sp_secs_nonneg f Hb)) as Nn.
+  unfold spec_hashin. rewrite (tiles_concat f _ _ C1 Nn ltac:(lia)).
+  fold (sum_from (sp_sorted f) (sp_soh f)). change (sum_from (sp_sorted f) (sp_soh f)) with (sp_sum f) in *.
+  pose proof (sum_from_ge _ (sp_soh f) Nn) as Sge. change (sum_from (sp_sorted f) (sp_soh f)) with (sp_sum f) in Sge.
+  rewrite !zsl_eq, Sck, Sdd, Ssz, Ssoh in *. rewrite Sva in C3.
+  unfold lin. do 2 f_equal.
+  destruct (hv_certsize hv =? 0) eqn:EZ; zb.
+  - rewrite (D5 EZ) in *. rewrite EZ.
+    destruct (zlen f >? sp_sum f) eqn:EG; zb.
+    + rewrite adj by lia. replace (sp_sum f + (zlen f - 0 - sp_sum f)) with (zlen f) by lia. rewrite adj by lia. reflexivity.
+    + rewrite app_nil_r. rewrite adj by lia. f_equal. lia.
+  - cbn [orb] in C3. zb. rewrite (D6 EZ) in *.
+    replace (zlen f >? sp_sum f) with true by (symmetry; rewrite Z.gtb_ltb; apply Z.ltb_lt; lia).
+    rewrite adj by lia. replace (sp_sum f + (zlen f - hv_certsize hv - sp_sum f)) with (hv_certstart hv) by lia.
+    rewrite adj by lia. reflexivity.
+Qed.
+
+Lemma all_bytes_pad8 sig : all_bytes sig = true -> all_bytes (pad8 sig) = true.
+Proof. intros H. unfold pad8. rewrite all_bytes_app, H, all_bytes_zeros. reflexivity. Qed.
+Lemma all_bytes_entry sig : all_bytes sig = true -> all_bytes (entry sig) = true.
+Proof.
+  intros H. unfold entry. rewrite !all_bytes_app, !le_enc_bytes, all_bytes_pad8 by exact H. reflexivity.
+Qed.
+
+Lemma embed_bytes f sig g : all_bytes f = true -> all_bytes sig = true -> sig_ok sig -> embed f sig = Ok g -> all_bytes g = true.
+Proof.
+  intros Hb Hs Ho H. destruct (embed_inv f sig g Hb Ho H) as (d & hv & [_ _ _ (c4 & L4 & B4 & G) _ _]).
+  rewrite G. unfold shape. rewrite !all_bytes_app, !all_bytes_zslice, B4, !le_enc_bytes, all_bytes_zeros, all_bytes_entry by assumption.
+  reflexivity.
+Qed.
+
+(* C05: the imprint relic embeds (computed on the input) is the Authenticode digest input of the OUTPUT *)
+Lemma embedded_digest_spec f sig g : all_bytes f = true -> all_bytes sig = true -> sig_ok sig -> embed f sig = Ok g ->
+  spec_contig g = true -> hashin f = Ok (spec_hashin g).
+Proof.
+  intros Hb Hs Ho H Hc. pose proof (embed_bytes f sig g Hb Hs Ho H) as Hg.
+  rewrite <- (law_hashin_pe f sig g Hb Ho H).
+  destruct (embed_inv f sig g Hb Ho H) as (d & hv & EM).
+  destruct (embedded_bytes f sig g d hv Hb Ho EM) as (B1 & B2 & B3 & B4 & B5 & B6 & B7 & _).
+  destruct EM as [ED Hnt Hsm _ N EG].
+  assert (HG : hashin g = Ok (dg_pre d)) by (unfold hashin; rewrite EG; reflexivity).
+  rewrite HG. f_equal. rewrite (hashin_eq_spec_pe g (dg_pre d) Hg HG Hc).
+  destruct (hashin_inv g (dg_pre d) Hg HG) as (d' & hv' & ED' & _ & _ & _ & _ & _ & _ & PE & _). cbv zeta in PE.
+  rewrite EG in ED'. inversion ED'; subst d'. cbn [dg_orig] in PE. rewrite PE, B6, B7.
+  change (zeros ((8 - 0) mod 8)) with (@nil Z). apply app_nil_r.
+Qed.
+
+(* ------------------------------------------------------------------ refusals *)
+Lemma refuses_clean_pe f sig : is_ok (hashin f) = false -> is_ok (embed f sig) = false.
+Proof.
+  unfold hashin, embed. destruct (digest_pe f); cbn [bind is_ok]; [discriminate|reflexivity|reflexivity].
+Qed.
+Lemma embed_defined_pe f sig d : all_bytes f = true -> digest_pe f = Ok d -> dg_certstart d < 4294967296 -> exists g, embed f sig = Ok g.
+Proof.
+  intros Hb H Hc. destruct (embed_shape f d sig Hb H Hc) as (hv & c4 & _ & _ & _ & E). eexists. exact E.
+Qed.
+Lemma embed_too_big_pe f sig d : digest_pe f = Ok d -> 4294967296 <= dg_certstart d -> embed f sig = Err E_TOOBIG.
+Proof.
+  intros H Hc. unfold embed. rewrite H. cbn [bind]. unfold make_patch.
+  replace (pe_mp_too_big (dg_certstart d)) with true
+    by (symmetry; unfold pe_mp_too_big; change (Z.shiftl 1 32) with 4294967296; rewrite Z.geb_leb; apply Z.leb_le; lia).
+  reflexivity.
+Qed.
+(* a certificate table that is not the tail of the file is never accepted *)
+Lemma refuses_trailing_pe f hv : all_bytes f = true -> read_nt f = Ok hv -> hv_certsize hv <> 0 ->
+  hv_certstart hv + hv_certsize hv <> zlen f -> is_ok (hashin f) = false.
+Proof.
+  intros Hb Hn Hz Ht. unfold hashin. destruct (digest_pe f) as [d| |] eqn:ED; cbn [bind is_ok]; try reflexivity.
+  exfalso. destruct (digest_inv f d Hb ED) as (hv' & Hnt' & D1 & D2 & D3 & D4 & D5 & D6 & D7 & _).
+  apply read_nt_facts in Hn. assert (hv' = hv) by (eapply nt_facts_unique; eauto). subst hv'.
+  specialize (D6 Hz). lia.
+Qed.
+
+(* ------------------------------------------------------------------ is_signed *)
+Lemma is_signed_spec_pe f hv : read_nt f = Ok hv -> (extract f = Ok None <-> sp_cert_size f = 0).
+Proof.
+  intros Hn. pose proof (read_nt_facts f hv Hn) as Hnt. destruct (sp_link f hv Hnt) as (_ & _ & _ & _ & Ssz & _).
+  unfold extract, extract_all, find_table. rewrite Hn. cbn [bind]. unfold pe_vf_not_signed. rewrite Ssz.
+  destruct (hv_certsize hv =? 0) eqn:E; zb.
+  - cbn [bind]. split; [intros _; exact E|reflexivity].
+  - split; [|intros; contradiction].
+    destruct (zlen f <? hv_certstart hv + hv_certsize hv); cbn [bind]; [discriminate|].
+    destruct (snd _ =? 0); cbn [bind]; [|discriminate].
+    destruct (fst _) as [|b l]; discriminate.
+Qed.
+
+(* ------------------------------------------------------------------ the format, as an instance of Laws/Pipeline.v *)
+Definition E_DOMAIN := 200.
+(* embed restricted to the domain of the laws: byte strings, blob below 4 GiB and already 8-aligned (MakePatch pads every
+   blob to 8 bytes, and the verifier returns the padded form; embed_pad8 lifts the restriction) *)
+Definition blob_dom (b : bytes) : bool := (zlen b <? 4294967296 - 32) && (zlen b mod 8 =? 0).
+Definition embed_dom (f b : bytes) : result bytes :=
+  if all_bytes f && all_bytes b && blob_dom b then embed f b else Err E_DOMAIN.
+Definition pe_format : format bytes := mkFormat bytes hashin embed_dom extract payload.
+
+Lemma embed_dom_inv f b g : embed_dom f b = Ok g ->
+  all_bytes f = true /\ all_bytes b = true /\ sig_ok b /\ pad8 b = b /\ embed f b = Ok g.
+Proof.
+  unfold embed_dom, blob_dom. destruct (all_bytes f); cbn [andb]; try discriminate.
+  destruct (all_bytes b); cbn [andb]; try discriminate.
+  destruct (zlen b <? 4294967296 - 32) eqn:E1; cbn [andb]; try discriminate.
+  destruct (zlen b mod 8 =? 0) eqn:E2; try discriminate. zb. intros H.
+  repeat split; try exact H. { unfold sig_ok. lia. }
+  unfold pad8. pose proof (zlen_nonneg b).
+  replace (pe_mp_padded (zlen b) - zlen b) with 0; [apply app_nil_r|].
+  unfold pe_mp_padded. rewrite Z.quot_div_nonneg by lia. lia.
+Qed.
+
+Lemma pe_L1 : law_extract bytes pe_format.
+Proof.
+  intros f b g H. cbn [f_embed f_extract pe_format] in *. destruct (embed_dom_inv f b g H) as (Hf & Hb & Ho & Hp & E).
+  rewrite <- Hp at 1. exact (proj2 (law_extract_pe f b g Hf Ho E)).
+Qed.
+Lemma pe_L2 : law_hashin bytes pe_format.
+Proof.
+  intros f b g H. cbn [f_embed f_hashin pe_format] in *. destruct (embed_dom_inv f b g H) as (Hf & Hb & Ho & Hp & E).
+  exact (law_hashin_pe f b g Hf Ho E).
+Qed.
+Lemma pe_L3 : law_payload bytes pe_format.
+Proof.
+  intros f b g H. cbn [f_embed f_payload pe_format] in *. destruct (embed_dom_inv f b g H) as (Hf & Hb & Ho & Hp & E).
+  unfold payload. f_equal. exact (law_payload_pe f b g Hf Ho E).
+Qed.
+
+Section PEPipeline.
+  (* symbolic cryptography and CMS encoding, exactly as in Laws/Pipeline.v *)
+  Variables key pubk sigv : Type.
+  Variable H : Z -> bytes -> bytes.
+  Variable pub : key -> pubk.
+  Variable sign : key -> bytes -> sigv.
+  Variable vrfy : pubk -> bytes -> sigv -> bool.
+  Hypothesis sign_correct : forall k m, vrfy (pub k) m (sign k m) = true.
+  Variable tbs : Z -> bytes -> bytes.
+  Variable ser0 : sigblob pubk sigv -> bytes.                 (* DER encoding of the SignedData *)
+  Variable deser0 : bytes -> option (sigblob pubk sigv).      (* pkcs7.Unmarshal: trailing zero bytes are ignored *)
+  Hypothesis deser_padded : forall b n, deser0 (ser0 b ++ zeros n) = Some b.
+  Hypothesis ser_bytes : forall b, all_bytes (ser0 b) = true.
+  Hypothesis ser_small : forall b, zlen (ser0 b) < 4294967296 - 40.
+
+  Let ser (b : sigblob pubk sigv) : bytes := pad8 (ser0 b).
+  Let deser_ser : forall b, deser0 (ser b) = Some b.
+  Proof. intros b. unfold ser, pad8. apply deser_padded. Qed.
+
+  (* relic's signing and re-signing on the faithful functions *)
+  Definition sign_pe (k : key) (a : Z) (f : bytes) : result bytes :=
+    pre <- hashin f ;; embed f (ser0 (mksig key pubk sigv pub sign tbs k a (H a pre))).
+  Fixpoint resign_pe (hist : list (key * Z)) (f : bytes) : result bytes :=
+    match hist with
+    | [] => Ok f
+    | (k, a) :: r => g <- sign_pe k a f ;; resign_pe r g
+    end.
+  Definition verify_pe (g : bytes) : verdict pubk := verify_file pubk sigv H vrfy tbs deser0 bytes pe_format g.
+
+  Lemma blob_dom_ser b : blob_dom (ser b) = true.
+  Proof.
+    unfold blob_dom, ser. rewrite zlen_pad8. pose proof (padded_spec _ (zlen_nonneg (ser0 b))) as [P1 P2]. pose proof (ser_small b).
+    apply andb_true_iff. split; [apply Z.ltb_lt; lia|apply Z.eqb_eq; exact P2].
+  Qed.
+  Lemma sign_file_eq k a f : all_bytes f = true ->
+    sign_file key pubk sigv H pub sign tbs ser bytes pe_format k a f = sign_pe k a f.
+  Proof.
+    intros Hf. unfold sign_file, sign_pe. cbn [f_hashin f_embed pe_format].
+    destruct (hashin f) as [pre| |]; cbn [bind]; try reflexivity.
+    unfold embed_dom. rewrite Hf, blob_dom_ser. unfold ser at 1. rewrite all_bytes_pad8 by apply ser_bytes. cbn [andb].
+    unfold ser. apply embed_pad8.
+  Qed.
+  Lemma sign_pe_bytes k a f g : all_bytes f = true -> sign_pe k a f = Ok g -> all_bytes g = true.
+  Proof.
+    intros Hf Hs. unfold sign_pe in Hs. destruct (hashin f) as [pre| |]; cbn [bind] in Hs; try discriminate.
+    eapply embed_bytes; [exact Hf|apply ser_bytes| |exact Hs]. unfold sig_ok. pose proof (ser_small (mksig key pubk sigv pub sign tbs k a (H a pre))). lia.
+  Qed.
+  Lemma resign_eq hist : forall f, all_bytes f = true ->
+    resign key pubk sigv H pub sign tbs ser bytes pe_format hist f = resign_pe hist f.
+  Proof.
+    induction hist as [|[k a] r IH]; intros f Hf; [reflexivity|].
+    cbn [resign resign_pe]. rewrite sign_file_eq by exact Hf.
+    destruct (sign_pe k a f) as [g| |] eqn:E; cbn [bind]; try reflexivity.
+    apply IH. eapply sign_pe_bytes; eauto.
+  Qed.
+
+  (* C01 *)
+  Theorem sign_then_verify_pe k a f g : all_bytes f = true -> sign_pe k a f = Ok g -> verify_pe g = Accept pubk (pub k) a.
+  Proof.
+    intros Hf Hs. rewrite <- sign_file_eq in Hs by exact Hf.
+    exact (sign_then_verify key pubk sigv H pub sign vrfy sign_correct tbs ser deser0 deser_ser bytes pe_format pe_L1 pe_L2 k a f g Hs).
+  Qed.
+  (* C08 *)
+  Theorem resign_history_pe hist f g k a : all_bytes f = true -> resign_pe (hist ++ [(k, a)]) f = Ok g ->
+    verify_pe g = Accept pubk (pub k) a /\ is_signed bytes pe_format g = true /\ payload g = payload f /\ hashin g = hashin f.
+  Proof.
+    intros Hf Hs. rewrite <- resign_eq in Hs by exact Hf.
+    exact (resign_history key pubk sigv H pub sign vrfy sign_correct tbs ser deser0 deser_ser bytes pe_format pe_L1 pe_L2 pe_L3 hist f g k a Hs).
+  Qed.
+
+  (* C02: under the symbolic idealisation, an accepted file has the protected bytes of the file that was signed *)
+  Variable issued : key -> Z -> bytes -> Prop.
+  Hypothesis unforgeable : forall k a d s, vrfy (pub k) (tbs a d) s = true -> issued k a d.
+  Theorem tamper_rejected_pe g g' k a pre : all_bytes g = true -> all_bytes g' = true ->
+    (forall d, issued k a d -> d = H a pre) -> (forall x y, H a x = H a y -> x = y) ->
+    hashin g = Ok pre -> verify_pe g' = Accept pubk (pub k) a ->
+    pad_to8 (protected g') = pad_to8 (protected g).
+  Proof.
+    intros Hg Hg' Honly Hinj Hh Hv.
+    pose proof (tamper_rejected_preimage key pubk sigv H pub vrfy tbs deser0 bytes pe_format issued unforgeable g g' k a pre Honly Hinj Hh Hv) as Hp.
+    cbn [f_hashin pe_format] in Hp. exact (protect_pe g' g pre Hg' Hg Hp Hh).
+  Qed.
+End PEPipeline.
